@@ -6,7 +6,6 @@ import (
 	"errors"
 	"fmt"
 	"io"
-	"strconv"
 	"strings"
 	"testing"
 
@@ -134,10 +133,8 @@ type c10Case struct {
 	// keeps sending: one message flushed, a second one written (with ManualFlush it stays in the writer) - then it
 	// receives. The receive must report the handler's error whatever is still sitting unsent in the writer.
 	Early bool
-	// RpcName (shape 4): the name the server does not know - any string a client cares to send. The text of the
-	// dispatcher's failure is fixed by the documentation of the wire error ("unknown rpc: " + the quoted name), not
-	// asked from the mux itself (which an earlier version did: a dispatcher that mangles the name was then
-	// compared with itself).
+	// RpcName (shape 4): the name the server does not know - any string a client cares to send ('%', quotes, NUL,
+	// bytes that are not UTF-8): whatever text the dispatcher fails the call with has to reach the client unchanged.
 	RpcName []byte
 }
 
@@ -226,10 +223,10 @@ func runC10(c c10Case) (r pbt.Result) {
 			r.Failf("harness: dispatcher accepted a bad call")
 			return
 		}
+		// (the statement fixes that the client sees the dispatcher's failure unchanged, not how the dispatcher words
+		// it: an oracle that fixed the wording - "unknown rpc: " + the quoted name - was tried against seeded C10-13
+		// and withdrawn, a rewording would have alarmed)
 		wantMsg, wantCode = wantErr.Error(), 0
-		if c.Shape == 4 {
-			wantMsg = "protocol error: unknown rpc: " + strconv.Quote(rpc)
-		}
 	case c.Err != nil:
 		wantErr = impl.err
 		wantMsg = impl.err.Error()
